@@ -1,3 +1,101 @@
 package server
 
-func VerifC08_ChainEvaluation() {}
+import (
+	"context"
+	"strings"
+
+	configv1 "github.com/istio-ecosystem/authservice/config/gen/go/v1"
+	mockv1 "github.com/istio-ecosystem/authservice/config/gen/go/v1/mock"
+	"github.com/istio-ecosystem/authservice/internal"
+	"github.com/istio-ecosystem/authservice/internal/vn"
+)
+
+const (
+	lowerAlpha = "abcdefghijklmnopqrstuvwxyz-"
+	mixedAlpha = "abcdefghijklmnopqrstuvwxyzABCDEFGHIJKLMNOPQRSTUVWXYZ-"
+)
+
+// kitMatch returns nil (no criterion), an equality or a prefix criterion on an arbitrary header
+// name (any case) -- the shapes the generated validation accepts (name and criterion non-empty).
+func kitMatch(name string) *configv1.Match {
+	kind := vn.Choice(name+"-match", 3)
+	if kind == 0 {
+		return nil
+	}
+	h := vn.StringIn(name+"-header", vn.Bound("c08-header-name-bytes", 3), mixedAlpha)
+	v := vn.String(name+"-criterion", vn.Bound("c08-criterion-bytes", 3))
+	vn.Assume(vn.And(len(h) > 0, len(v) > 0))
+	if kind == 1 {
+		return &configv1.Match{Header: h, Criteria: &configv1.Match_Equality{Equality: v}}
+	}
+	return &configv1.Match{Header: h, Criteria: &configv1.Match_Prefix{Prefix: v}}
+}
+
+// refMatches is the documented chain criterion.
+func refMatches(m *configv1.Match, headers map[string]string) bool {
+	if m == nil {
+		return true
+	}
+	val := headers[strings.ToLower(m.Header)]
+	switch c := m.Criteria.(type) {
+	case *configv1.Match_Equality:
+		return val == c.Equality
+	case *configv1.Match_Prefix:
+		return strings.HasPrefix(val, c.Prefix)
+	}
+	return false
+}
+
+// VerifC08_ChainEvaluation compares ExtAuthZFilter.Check with a reference evaluator: first
+// matching chain in order; conjunction of its filters; default deny unless allow_unmatched.
+func VerifC08_ChainEvaluation() {
+	nchains := vn.Choice("nchains", vn.Bound("c08-max-chains", 2)+1)
+	cfg := &configv1.Config{AllowUnmatchedRequests: vn.Bool("allow-unmatched")}
+	for i := 0; i < nchains; i++ {
+		name := "chain" + string(rune('0'+i))
+		ch := &configv1.FilterChain{Name: name, Match: kitMatch(name)}
+		nf := 1 + vn.Choice(name+"-nfilters", vn.Bound("c08-max-filters", 2))
+		for j := 0; j < nf; j++ {
+			allow := vn.Bool(name + "-allow" + string(rune('0'+j)))
+			ch.Filters = append(ch.Filters, &configv1.Filter{Type: &configv1.Filter_Mock{Mock: &mockv1.MockConfig{Allow: allow}}})
+		}
+		cfg.Chains = append(cfg.Chains, ch)
+	}
+	headers := map[string]string{}
+	nh := vn.Choice("nheaders", vn.Bound("c08-max-headers", 2)+1)
+	for i := 0; i < nh; i++ {
+		k := vn.StringIn("hdr"+string(rune('0'+i))+"-name", vn.Bound("c08-header-name-bytes", 3), lowerAlpha)
+		vn.Assume(len(k) > 0)
+		headers[k] = vn.String("hdr"+string(rune('0'+i))+"-value", vn.Bound("c08-header-value-bytes", 4))
+	}
+
+	// reference verdict (no short circuits: one term)
+	decided := false
+	refOK := false
+	for _, ch := range cfg.Chains {
+		m := refMatches(ch.Match, headers)
+		all := true
+		for _, f := range ch.Filters {
+			all = vn.And(all, f.GetMock().GetAllow())
+		}
+		take := vn.And(!decided, m)
+		refOK = vn.Or(vn.And(take, all), vn.And(!take, refOK))
+		decided = vn.Or(decided, m)
+	}
+	refOK = vn.Or(vn.And(decided, refOK), vn.And(!decided, cfg.AllowUnmatchedRequests))
+
+	e := &ExtAuthZFilter{log: internal.Logger(internal.Authz), cfg: cfg}
+	resp, err := e.Check(context.Background(), kitReq("/", headers))
+	vn.Assert("C08/check-returns-verdict", vn.And(err == nil, resp != nil))
+	gotOK := resp.GetStatus().GetCode() == 0
+	vn.Cover("C08/ok", gotOK)
+	vn.Cover("C08/denied-by-filter", vn.And(!gotOK, decided))
+	vn.Cover("C08/denied-unmatched", vn.And(!gotOK, !decided))
+	vn.Cover("C08/allowed-unmatched", vn.And(gotOK, !decided))
+	vn.Assert("C08/verdict-equals-reference", gotOK == refOK)
+	// a denial by a filter is the mock's PermissionDenied (7) returned as is; an unmatched
+	// request is denied with PermissionDenied and the "no chains matched" message
+	vn.Assert("C08/denial-code", vn.Implies(!gotOK, resp.GetStatus().GetCode() == 7))
+	vn.Assert("C08/unmatched-message", vn.Implies(vn.And(!gotOK, !decided), resp.GetStatus().GetMessage() == "no chains matched"))
+	vn.Assert("C08/filter-denial-as-is", vn.Implies(vn.And(!gotOK, decided), resp.GetStatus().GetMessage() == ""))
+}
